@@ -41,6 +41,9 @@ TRUSTED = [
     "controls of the Cache facade (invalidate_further, disabling of one command, transaction blocks of the three modes) are opened by the "
     "harness around lookups / adds / expire / exists steps; they are no steps of the model (Model/Bloom.lean, 'controls of the facade'): "
     "inside a transaction block time does not pass and the filter's key is not deleted",
+    "copies of bit-field values: the harness reads a bit-field key with `get` and writes what it got to another key with `set` / "
+    "`set_many` (plainly or inside a transaction of its own); that `get` answers the array for such a key is the library's behaviour, "
+    "the model only says that what is stored under `dst` is a copy (theorem mbits_refine_counters)",
     "virtual clock (harness/vtime.py, 1 tick = 1/8 s, dyadic TTLs); the backend runs with check_interval=0, i.e. without its purge task: a "
     "run-out entry stays physically stored until a command reads it (one sweep of the purge task on a key is what `exists` does to it)",
     "harness: canonicalisation (sorted index sets, truthiness of answers), recording middleware / Memory subclass, probe-limit wrapper "
@@ -111,6 +114,10 @@ def gen_hist(rng, n: int) -> dict:
     # deadline (`expire`), let virtual time pass - often exactly up to / just short of / past a deadline, with nothing
     # touching the key in between (no purge task) -, delete keys and probe them with `exists`
     timed = cfg != "bitarray" and rng.random() < 0.55
+    # ... and a share of them moves bit-field VALUES between keys with get + set / set_many (also inside a transaction)
+    copying = cfg != "bitarray" and rng.random() < 0.4
+    if copying:
+        nkeys = rng.choice([2, 2, 3])
     ops = []
     now = 0
     deadlines: dict = {}
@@ -142,6 +149,13 @@ def gen_hist(rng, n: int) -> dict:
                 deadlines.pop(key, None)
             else:
                 ops.append(["touch", key])
+            continue
+        if copying and rng.random() < 0.15:
+            # the bit-field VALUE of one key written to another (or the same) key with the value commands
+            src, dst = rng.randrange(nkeys), rng.randrange(nkeys)
+            how = rng.choice(bb.COPY_HOW)
+            ops.append(["copy", src, dst, how, rng.choice([0, 0, 0, 8, 80]) if timed else 0])
+            in_tx = False
             continue
         idxs = [rng.choice(pool) for _ in range(rng.choice([0, 1, 1, 2, 3, 4]))]
         if rng.random() < 0.65:
@@ -242,6 +256,8 @@ def gen_bloom(rng, n: int, big: int) -> dict:
     # lookups between the adds (also of elements that are added only later, and of their twins): a lookup must neither
     # change the filter nor be remembered
     p_look = 0.5 if typed or ctx else 0.1
+    # the filter's VALUE copied to a backup key (get + set / set_many) and the backup wiped: the live filter must not notice
+    backups = rng.random() < 0.25
     # controls of the facade opened around lookups / adds / commands on the filter's key: whatever is open, a lookup leaves
     # the filter intact and an added element is found afterwards
     p_ctl = 0.35 if n % 2 == 0 and rng.random() < 0.5 else 0.0
@@ -265,6 +281,8 @@ def gen_bloom(rng, n: int, big: int) -> dict:
         group = [["add", e, form()] + opts()]
         if rng.random() < p_look:
             group.insert(rng.randrange(2), ["query", rng.choice(universe), form()] + opts())
+        if backups and rng.random() < 0.2:
+            steps.append(["backup", rng.choice(["set", "set_many"])])
         if timed and rng.random() < 0.5:
             u = rng.random()
             if u < 0.35:
@@ -464,7 +482,7 @@ def _without_tx_expire(case: dict):
     if case["kind"] == "hist":
         ops, hit, open_at, seen_expire = [], False, None, False
         for op in case["ops"] + [["end"]]:
-            if op[0] in ("begin", "end", "del", "adv"):     # whatever ends the open block (see bitsbloom._hist_impl)
+            if op[0] in ("begin", "end", "del", "adv", "copy"):     # whatever ends the open block (see bitsbloom._hist_impl)
                 if open_at is not None and seen_expire:
                     del ops[open_at]
                     hit = True
@@ -647,7 +665,9 @@ def run(chk: Check) -> int:
                 "that has an equal-but-differently-rendered twin (1 / True / 1.0) in the same filter, a query of an added element whose twin "
                 "was looked up before, a step inside an invalidate_further / disabling / transaction block, a query of an added element "
                 "inside such a block and after a lookup inside one; bit fields also - a command / an expire inside a transaction block; "
-                "params_for cases are never counted. "
+                "bit fields also - a bit-field VALUE copied to another key / to itself with get + set / set_many (also inside a transaction, also from "
+                "a run-out unpurged entry), an increment of a key that was copied from or to, a read of its copy partner afterwards; bloom "
+                "also - the filter's value copied to a backup key and the backup wiped; params_for cases are never counted. "
                 "distinct = distinct canonical case (JSON) among generated ones + the enumerated non-trivial ones",
         "exhaustive": True,
         "exhaustive_subspaces": [
